@@ -359,56 +359,3 @@ fn length_limits(n: usize) {
 }
 
 
-/// Stability of the tag sort beyond the small-slice regime of the standard library's sorts (an unstable sort is
-/// indistinguishable from a stable one below ~32 elements): NS = @@NSORT@@ pairs whose tags cycle 2, 1, 0 (concrete, so
-/// the sort's control flow is concrete) with SYMBOLIC one-byte values.  Ties must keep insertion order.
-const NSORT: usize = @@NSORT@@;
-
-struct BigRec {
-    buf: [u8; 4 + 9 * NSORT],
-    len: usize,
-}
-impl<'a> ZeroCopySink<'a> for BigRec {
-    fn append_copy(&mut self, bytes: &[u8]) {
-        let mut i = 0;
-        while i < bytes.len() {
-            self.buf[self.len] = bytes[i];
-            self.len += 1;
-            i += 1;
-        }
-    }
-    fn append_borrow(&mut self, bytes: &'a [u8]) {
-        self.append_copy(bytes)
-    }
-}
-
-#[kani::proof]
-#[kani::unwind(@@USORT@@)]
-fn c11_stable_order_many_pairs() {
-    let vals: [u8; NSORT] = kani::any();
-    let mut elements: Vec<(Tag, &[u8])> = Vec::with_capacity(NSORT);
-    let mut i = 0;
-    while i < NSORT {
-        elements.push((Tag::new_from_u32(2 - (i % 3) as u32), &vals[i..i + 1]));
-        i += 1;
-    }
-    let w = MessageWrapper::new(elements).unwrap();
-    let mut sink = BigRec { buf: [0; 4 + 9 * NSORT], len: 0 };
-    w.to_rough_tlv(&mut sink);
-    assert!(sink.len == 8 * NSORT + NSORT);
-    assert!(sink.len == w.rough_tlv_len());
-    // expected order: all tag-0 pairs (inputs 2, 5, 8, ...) in insertion order, then tag 1 (1, 4, ...), then tag 2 (0, 3, ...)
-    let mut r = 0;
-    let mut t = 0;
-    while t < 3 {
-        let mut i = 2 - t;
-        while i < NSORT {
-            assert!(le32(&sink.buf, 4 * (NSORT + r)) == t as u32);
-            assert!(sink.buf[8 * NSORT + r] == vals[i]);
-            r += 1;
-            i += 3;
-        }
-        t += 1;
-    }
-    assert!(r == NSORT);
-}
